@@ -340,7 +340,7 @@ def run(ctx):
 
     # ---- 2. Text.wrap: small scope, sampled by seed
     small = list(all_strings(ALPHA, 4))
-    n2 = 50000 if quick else 300000
+    n2 = 40000 if quick else 300000
     for k in range(n2):
         r = rng.random()
         if r < 0.35:
